@@ -121,11 +121,12 @@ func returnsPropagate(blk *ssa.BasicBlock, v ssa.Value) (ok bool, why string) {
 		if ei < 0 {
 			return false, "function has no error result"
 		}
-		ev := r.Results[ei]
+		ev := retVal(r, ei)
 		if !(ev == v || dependsOn(ev, func(x ssa.Value) bool { return x == v })) {
 			return false, fmt.Sprintf("a return reachable from the failure branch does not carry the error (returns %s)", shortD(ev))
 		}
-		for i, rv := range r.Results {
+		for i := range r.Results {
+			rv := retVal(r, i)
 			if i == ei {
 				continue
 			}
